@@ -12,6 +12,7 @@ C01 — model of the WRITE side of pkg/bufioutil (core Lean only): Go's bufio.Wr
   flush          bufio.Writer.Flush: one write(2) of the buffer when it is not empty
   entryWrite     bufioEntryWriter.Write: w.Write(uvarint length header), w.Write(content)
   WOp / stepW    Write | Flush | Sync (= Flush + f.Sync) | Close (= Flush + f.Close)
+  streamWrites   bufioStreamWriter.Write per chunk (table files: no header)
   persistW       storeVersionSet.persistEditLogs on the writer: per record Write, then Sync iff `syncs r`
                  (`syncs` = fun _ => true for the code as it is: the regenerated fact persistLoopSteps)
 -/
@@ -104,5 +105,8 @@ def persistRelevant : List String :=
 
 def syncsEveryRecord (steps : List String) : Bool :=
   steps.filter (fun c => persistRelevant.contains c) == ["writer.Write", "writer.Sync"]
+
+/-- bufioStreamWriter.Write, repeated (a table file: content without length headers): one bufio Write per chunk -/
+def streamWrites (B : Nat) (s : WState) (chunks : List Bytes) : WState := chunks.foldl (bwrite B) s
 
 end LinVerif.Kv.BW
